@@ -14,6 +14,8 @@ RULE = ('Histories of public mutator calls biased to rejected calls (multi-eleme
 ASSUMPTIONS = ['Task(...) constructor calls are executed but not judged (a constructor is not a mutator of an existing object)',
                'snapshots use the direct public getters; recursive getters are compared separately']
 
+FUZZ = [('random-late', 4000)]       # thorough tier: coverage-guided sub-run (vf/fuzz.py), runs per process x 16 processes
+
 
 def streams(tier):
     return hist_streams('C15', 'late', 8000, 80000)
